@@ -63,32 +63,43 @@ def touches (noAccess : List String) (ls : List String) : Bool := ls.any fun n =
 def infoKeys (valid : List String) (l : List String) : List String :=
   if l.isEmpty then valid else dedup l
 
+/-- the cached object of `p`, or a fresh one if `p` is (still) there -/
+def scached (s : SSt) (p : Nat) : Option (SSt × Ref) :=
+  match s.cache.get p with
+  | some r => some (s, r)
+  | none =>
+    match s.k.statStart p with
+    | none => none
+    | some b =>
+      let r := s.objs.length
+      some ({ s with objs := s.objs ++ [⟨p, b, false⟩], cache := s.cache.set p r }, r)
+
+inductive SFill
+  | ok (info : Option (List String))
+  | vanished
+  | bad
+
+/-- what `attrs` asks for at a PID which is / is not there any more -/
+def sfill (valid noAccess : List String) (attrs : Attrs) (alive : Bool) : SFill :=
+  match attrs with
+  | .none => .ok none
+  | .names l =>
+    if !(l.all valid.contains) then .bad
+    else
+      let ks := infoKeys valid l
+      if touches noAccess ks && !alive then .vanished else .ok (some ks)
+
 /-- walk the remaining listed PIDs until the next yield -/
 def svisit (valid noAccess : List String) (attrs : Attrs) (g : Nat) : SSt → List Nat → SSt × Out
   | s, [] => (s.setGen g .done, .stop)
   | s, p :: rest =>
-    let alive := (s.k.statStart p).isSome
-    let cached : Option (SSt × Ref) :=
-      match s.cache.get p with
-      | some r => some (s, r)
-      | none =>
-        match s.k.statStart p with
-        | none => none
-        | some b =>
-          let r := s.objs.length
-          some ({ s with objs := s.objs ++ [⟨p, b, false⟩], cache := s.cache.set p r }, r)
-    match cached with
+    match scached s p with
     | none => svisit valid noAccess attrs g { s with cache := s.cache.remove p } rest      -- vanished
     | some (s1, r) =>
-      match attrs with
-      | .none => (s1.setGen g (.running rest), .yield r p none)
-      | .names l =>
-        if !(l.all valid.contains) then (s1.setGen g .done, .exc "ValueError")
-        else
-          let ks := infoKeys valid l
-          if touches noAccess ks && !alive then
-            svisit valid noAccess attrs g { s1 with cache := s1.cache.remove p } rest      -- vanished
-          else (s1.setGen g (.running rest), .yield r p (some ks))
+      match sfill valid noAccess attrs (s.k.statStart p).isSome with
+      | .ok info => (s1.setGen g (.running rest), .yield r p info)
+      | .bad => (s1.setGen g .done, .exc "ValueError")
+      | .vanished => svisit valid noAccess attrs g { s1 with cache := s1.cache.remove p } rest
 
 def sIsRunning (s : SSt) (r : Ref) (o : GObj) : SSt × Bool :=
   if o.dead then (s, false)
